@@ -383,14 +383,15 @@ class CookieJar(AbstractCookieJar):
             if max_age := cookie["max-age"]:
                 try:
                     delta_seconds = int(max_age)
-                    max_age_expiration = min(time.time() + delta_seconds, self.MAX_TIME)
-                    self._expire_cookie(max_age_expiration, domain, path, name)
                 except ValueError:
-                    cookie["max-age"] = ""
-                    self._expirations.pop((domain, path, name), None)
+                    # An invalid Max-Age is ignored, Expires still applies
+                    max_age = cookie["max-age"] = ""
 
+            if max_age:
+                max_age_expiration = min(time.time() + delta_seconds, self.MAX_TIME)
+                self._expire_cookie(max_age_expiration, domain, path, name)
             elif expires := cookie["expires"]:
-                if expire_time := self._parse_date(expires):
+                if (expire_time := self._parse_date(expires)) is not None:
                     self._expire_cookie(expire_time, domain, path, name)
                 else:
                     cookie["expires"] = ""
